@@ -209,7 +209,7 @@ func (e *Engine) evalIdent(st *State, id *ast.Ident) *Val {
 			return v
 		}
 		if o.Pkg() != nil && o.Parent() == o.Pkg().Scope() {
-			loc := "g:" + o.Name()
+			loc := "g:" + GlobalName(o)
 			if v, ok := st.heap[loc]; ok {
 				return v
 			}
@@ -484,7 +484,7 @@ func (e *Engine) evalSelector(st *State, x *ast.SelectorExpr) []valOut {
 func (e *Engine) mapPath(x ast.Expr, v *Val) string {
 	if id, ok := ast.Unparen(x).(*ast.Ident); ok {
 		if obj, ok := e.Info.Uses[id].(*types.Var); ok && obj.Pkg() != nil && obj.Parent() == obj.Pkg().Scope() {
-			return "g:" + obj.Name()
+			return "g:" + GlobalName(obj)
 		}
 	}
 	if v.Kind == KField || v.Kind == KGlobal || v.Kind == KAlloc && v.Path != "" && (v.Field != nil || strings.HasPrefix(v.Path, "g:")) {
